@@ -46,6 +46,10 @@ def strategy(tier):
         'init': st.lists(st.tuples(st.sampled_from(REFKEYS), st.integers(0, 5)), max_size=4).map(lambda l: [list(x) for x in l]),
         'writers': st.lists(writer, min_size=2, max_size=4),
         'poison': st.booleans(),
+        # the classes of the objects referenced by (oid, class) references cannot be imported where the conflict is
+        # resolved (a storage server without the application's code)
+        'missing_targets': st.sampled_from([False, False, True]),
+        'undo_first': st.sampled_from([False, False, True]),
         'undo': st.integers(0, 3),
     })
 
@@ -60,7 +64,15 @@ def install_missing():
             vclasses.RESOLVE_LOG.append(('missing-class-resolver-ran',))
             return new
     GoneCounter.__module__ = MISSING_MOD
+    GoneCounter.__qualname__ = 'GoneCounter'
     mod.GoneCounter = GoneCounter
+
+    class GoneNode(persistent.Persistent):
+        """class of REFERENCED objects that cannot be imported where conflicts are resolved"""
+    GoneNode.__module__ = MISSING_MOD
+    GoneNode.__qualname__ = 'GoneNode'
+    mod.GoneNode = GoneNode
+    GoneCounter.Node = GoneNode
     sys.modules[MISSING_MOD] = mod
     return GoneCounter
 
@@ -134,7 +146,7 @@ def execute(case):
         def populate(root, root2):
             targets = {}
             for i in range(3):
-                for fmt, cls in (('oc', Node), ('o', NodeNA)):
+                for fmt, cls in (('oc', Gone.Node if case.get('missing_targets') else Node), ('o', NodeNA)):
                     t = cls('na') if cls is NodeNA else cls()
                     t.name = 't_%s%d' % (fmt, i)
                     root[t.name] = t
@@ -176,7 +188,9 @@ def execute(case):
             tm.commit()
             c.close()
         dbs = [db, db2]
-        if variant == 'Missing':
+        if case.get('missing_targets'):
+            out.label('classes-of-referenced-objects-not-importable')
+        if variant == 'Missing' or case.get('missing_targets'):
             # "class not importable" where resolution runs (the storage), while the client can still
             # pickle its objects: the module disappears only for the duration of storage.store()
             orig_store = storage.store
@@ -284,6 +298,16 @@ def execute(case):
                 states.append(dict(new_model))
                 tids.append(db.storage.lastTransaction())
                 first = False
+                if case.get('undo_first') and kind == 'fs':
+                    # the first writer's transaction is undone: the committed revision the later writers are merged
+                    # with is a record written by undo (a back-pointer), its state the original one
+                    tmu = transaction.TransactionManager()
+                    db.undo(db.undoLog(0, 1)[0]['id'], tmu.get())
+                    tmu.commit()
+                    committed_model = dict(old_model)
+                    states.append(dict(old_model))
+                    tids.append(db.storage.lastTransaction())
+                    out.label('committed-revision-written-by-undo')
                 continue
             failing = variant == 'RCounter' and bool(wspec.get('raise')) and wspec is not case['writers'][0]
             if failing and len(vclasses.RESOLVE_LOG) != 1 and not ok:
